@@ -15,11 +15,17 @@
       rejected (C18_fallback_parser, C18_fallback_cut),
     * an array whose available bytes are a strict prefix of its encoding never passes the length assertion
       (C18_payload_short_base64, C18_payload_short_raw; uncompressed arrays).
-  Not proved: the same for compressed arrays (`compReadE`; hypothesis would be "the codec raises on a strict
-  prefix of a block") — the model is compared with the implementation on every prefix instead.
+    * the same for compressed arrays, with the codec as a parameter and the hypotheses "decompress ∘ compress = id"
+      and "decompressing a strict prefix of a compressed block raises" (C18_payload_short_compressed), and for the
+      whole matrix of binary array encodings at once (C18_array_never_equal),
+    * every prefix of a serialized document that ends before the last byte of the root element is rejected by
+      the `XmlLite` tag-balance scanner (C18_xml_prefix); that expat agrees with `XmlLite` on the enumerated
+      cuts is observed by the harness, not proved.
 -/
 import FcProofs.Lemmas.SearchW
 import FcProofs.Lemmas.PrefixW
+import FcProofs.Lemmas.C18Comp
+import FcProofs.Lemmas.C18Xml
 namespace Fc
 open Fc.W
 
@@ -236,5 +242,87 @@ theorem C18_payload_short_raw (h size : Nat) (items : List Nat) (avail : List Na
       apply checkDeclared_short
       rw [← itemsToBytes_length]
       exact c2
+
+/-- **C18 (short payload, compressed).** A compressed array (header type of `h` bytes, base64 or raw, codec a
+    parameter) whose payload is cut into non-empty blocks in any way.  Codec hypotheses (`CodecOK`, for the
+    blocks of this array): compressed data are bytes and fit the header type, `decompress (compress b) = b`, and
+    decompressing a strict prefix of a compressed block raises or yields fewer bytes than the block has
+    (`CodecOK.of_raises` for the plain "raises"; LZ4 blocks can decode short).  If the bytes available are a strict prefix of
+    what is stored — the cut may lie in the header `[#blocks, block size, last]`, in the list of compressed
+    block sizes, inside a block or between two blocks — the reader raises or returns fewer items than declared,
+    so the length assertion fails.  `items ≠ []`: the stored form of an EMPTY compressed array is `[0, bs, 0]`
+    and its first two entries already read as the complete empty array (Witness/C18.lean). -/
+theorem C18_payload_short_compressed (h size : Nat) (E : Enc) (hE : E = b64E ∨ E = rawE)
+    (compress : Bytes → Bytes) (decompress : Bytes → Option Bytes) (bsz last : Nat) (blocks : List Bytes)
+    (items avail : List Nat) (hh : h ≠ 0) (hitems : items ≠ [])
+    (hpay : blocks.flatten = itemsToBytes size items) (hbl : ∀ b ∈ blocks, b ≠ [])
+    (hn : blocks.length < 256 ^ h) (hbsz : bsz < 256 ^ h) (hlast : last < 256 ^ h)
+    (hc : CodecOK compress decompress h blocks)
+    (hp : avail <+: encodeCompE h E compress bsz last blocks)
+    (hne : avail ≠ encodeCompE h E compress bsz last blocks) :
+    checkDeclared size items.length (compReadE h E decompress avail) = none := by
+  have hs : SafeEnc E := by
+    rcases hE with rfl | rfl
+    · exact safe_b64
+    · exact safe_raw
+  exact compRead_checkDeclared h size E hs compress decompress bsz last blocks items avail hh hitems hpay hbl hn
+    hbsz hlast hc hp hne
+
+/-- **C18 (a damaged payload never yields the reference's values).** For EVERY cell of the matrix of binary
+    array encodings — header type UInt32 / UInt64, base64 (inline or appended) / raw (appended), uncompressed /
+    compressed in blocks of `bsz` bytes — a strict prefix of what is stored for an array never passes the
+    length assertion; in particular it never reads as the items that were written.  For compressed cells the
+    array is non-empty and the codec satisfies `CodecOK` on the blocks of this array.  (ASCII arrays exist only
+    inline, inside well-formed XML; they are covered by the enumeration, not by this theorem.) -/
+theorem C18_array_never_equal (c : ArrCfg) (size : Nat) (compress : Bytes → Bytes)
+    (decompress : Bytes → Option Bytes) (items avail : List Nat)
+    (hh : c.h = 4 ∨ c.h = 8) (hn : (itemsToBytes size items).length < 256 ^ c.h)
+    (hcomp : ∀ bsz, c.comp = some bsz → 0 < bsz ∧ bsz < 256 ^ c.h ∧ items ≠ [] ∧
+      CodecOK compress decompress c.h (chunks bsz (itemsToBytes size items)))
+    (hp : avail <+: encodeArr c compress (itemsToBytes size items))
+    (hne : avail ≠ encodeArr c compress (itemsToBytes size items)) :
+    checkDeclared size items.length (readArr c decompress avail) = none ∧
+      checkDeclared size items.length (readArr c decompress avail) ≠ some items := by
+  suffices hmain : checkDeclared size items.length (readArr c decompress avail) = none by
+    rw [hmain]; exact ⟨rfl, by simp⟩
+  unfold readArr
+  unfold encodeArr at hp hne
+  cases hcm : c.comp with
+  | none =>
+    rw [hcm] at hp hne
+    simp only at hp hne ⊢
+    unfold ArrCfg.enc at hp hne ⊢
+    cases hb : c.b64 with
+    | true =>
+      rw [hb] at hp hne
+      exact C18_payload_short_base64 c.h size items avail (by omega) hn hp hne
+    | false =>
+      rw [hb] at hp hne
+      exact C18_payload_short_raw c.h size items avail hn hp hne
+  | some bsz =>
+    rw [hcm] at hp hne
+    simp only at hp hne ⊢
+    obtain ⟨hb0, hblt, hitems, hc⟩ := hcomp bsz hcm
+    unfold encodeComp at hp hne
+    have hE : c.enc = b64E ∨ c.enc = rawE := by
+      unfold ArrCfg.enc; cases c.b64 <;> simp
+    have hcl : (chunks bsz (itemsToBytes size items)).length < 256 ^ c.h := by
+      have := length_le_flatten_length _ (chunks_ne_nil bsz hb0 (itemsToBytes size items))
+      rw [chunks_flatten bsz hb0] at this
+      omega
+    exact C18_payload_short_compressed c.h size c.enc hE compress decompress bsz _ _ items avail (by omega) hitems
+      (chunks_flatten bsz hb0 _) (chunks_ne_nil bsz hb0 _) hcl hblt
+      (Nat.lt_trans (Nat.mod_lt _ hb0) hblt) hc hp hne
+
+/-- **C18 (XML prefix).** For every document of the restricted shape the writers emit (optional declaration,
+    one root element; start / end / empty-element tags with double-quoted attributes; text), serialized by
+    `XmlLite.Doc.ser`: a prefix is accepted by the `XmlLite` scanner exactly if it contains the last byte of the
+    root element.  Hence every cut in the declaration, inside a tag, inside an attribute value, in text or
+    between elements is rejected; only cuts in the blanks behind the root end tag are accepted (nothing is lost
+    there).  This is the thorough-tier assumption "ElementTree raises on this prefix" with `XmlLite` in the place
+    of expat; the harness compares the two verdicts on every enumerated cut. -/
+theorem C18_xml_prefix (d : XmlLite.Doc) (hwf : d.wf = true) (n : Nat) :
+    XmlLite.scan (d.ser.take n) = true ↔ (d.prolog ++ d.rootInit).length < n :=
+  XmlLite.scan_take_iff d hwf n
 
 end Fc
